@@ -1,7 +1,7 @@
 (* one entry point for the extracted model: first integer = property / function selector *)
 From Coq Require Import ZArith List.
 Import ListNotations.
-Require Import EV.model.Cfg EV.model.Enc EV.model.ChanFileRun EV.model.GroupIds EV.model.C20Run EV.model.FrameRun EV.model.CodecRun EV.model.PoolRun EV.model.Exec EV.model.ExecRun EV.model.Chan EV.model.ChanRun EV.model.Link EV.model.LinkRun EV.model.Ids EV.model.IdsRun EV.model.RSync EV.model.RSyncRun EV.model.ProxyRun EV.model.FdTable EV.model.FdRun EV.model.TermRun EV.gen.Facts.
+Require Import EV.model.Cfg EV.model.Enc EV.model.ChanFileRun EV.model.GroupIds EV.model.C20Run EV.model.FrameRun EV.model.CodecRun EV.model.PoolRun EV.model.Exec EV.model.ExecRun EV.model.Chan EV.model.ChanRun EV.model.Link EV.model.LinkRun EV.model.Ids EV.model.IdsRun EV.model.RSync EV.model.RSyncRun EV.model.ProxyRun EV.model.FdTable EV.model.FdRun EV.model.Term EV.model.TermRun EV.gen.Facts.
 Open Scope Z_scope.
 
 Definition dispatch (inp : list Z) : list Z :=
@@ -10,6 +10,7 @@ Definition dispatch (inp : list Z) : list Z :=
   | 1 :: 1 :: r => run_loads r
   | 5 :: 0 :: r => run_safe_terminate r
   | 5 :: 1 :: r => run_rounds r
+  | 5 :: 2 :: r => run_terminate {| joins_pending := term_loop_joins_pending; vias_count_tojoin := term_vias_count_tojoin |} r
   | 11 :: r => run_ladder (Z.of_nat ladder_t1 :: Z.of_nat ladder_t2 :: r)
   | 6 :: r => run_fd init_popen_ops r
   | 8 :: 0 :: r => run_frames r
